@@ -10,7 +10,7 @@
 From Coq Require Import List ZArith Bool Lia.
 From Coq.Strings Require Import Byte.
 From Verif Require Import Base.Bytes Base.BE Wire.TType Wire.WVal Wire.Codec Wire.CodecFacts Wire.Schema Wire.Value
-  Wire.GenTables Wire.Std Wire.StdFacts Wire.Unknown Wire.UnknownCodecFacts Wire.UnknownEvoFacts Wire.UnknownReadFacts.
+  Wire.GenTables Wire.Std Wire.StdFacts Wire.Unknown Wire.UnknownDomain Wire.UnknownCodecFacts Wire.UnknownEvoFacts Wire.UnknownReadFacts.
 Import ListNotations.
 Open Scope Z_scope.
 
@@ -197,6 +197,35 @@ Proof.
     apply IH; [assumption|]. intros a' b' c' Hin. apply H. right. assumption.
 Qed.
 
+(* ------------------------------------------------------------------ exact value equality is sound *)
+
+Lemma value_eqb_eq : forall a b, value_eqb a b = true -> a = b.
+Proof.
+  fix ind 1. intros a b H. destruct a, b; simpl in H; try discriminate.
+  - apply eqb_prop in H. subst. reflexivity.
+  - apply Z.eqb_eq in H. subst. reflexivity.
+  - apply Z.eqb_eq in H. subst. reflexivity.
+  - apply beqb_true in H. subst. reflexivity.
+  - apply beqb_true in H. subst. reflexivity.
+  - f_equal. revert l0 H. induction l as [|x l IHl]; intros [|y l0] H; try discriminate; [reflexivity|].
+    apply andb_true_iff in H. destruct H as [H1 H2]. f_equal; [apply ind; exact H1 | apply IHl; exact H2].
+  - f_equal. revert kvs0 H. induction kvs as [|[k x] kvs IHl]; intros [|[k' y] kvs0] H; try discriminate; [reflexivity|].
+    apply andb_true_iff in H. destruct H as [H1 H2]. apply andb_true_iff in H1. destruct H1 as [Hk Hx].
+    f_equal; [f_equal; apply ind; assumption | apply IHl; exact H2].
+  - f_equal. revert fs0 H. induction fs as [|[i x] fs IHl]; intros [|[j y] fs0] H; try discriminate; [reflexivity|].
+    apply andb_true_iff in H. destruct H as [H1 H2]. apply andb_true_iff in H1. destruct H1 as [Hi Hx].
+    apply Z.eqb_eq in Hi. subst. f_equal; [f_equal; apply ind; assumption | apply IHl; exact H2].
+  - reflexivity.
+  - f_equal. apply ind. exact H.
+Qed.
+
+(* the earlier, stronger schema condition implies the one the theorems use *)
+Lemma opt_init_unset_defaults_ok o n : opt_init_unset o = true -> opt_defaults_ok o n = true.
+Proof.
+  unfold opt_init_unset, opt_defaults_ok. intro H. rewrite forallb_forall in *. intros s Hs.
+  specialize (H s Hs). rewrite forallb_forall in *. intros f Hf. unfold default_ok. rewrite (H f Hf). reflexivity.
+Qed.
+
 (* ------------------------------------------------------------------ new -> old (keep) -> new *)
 
 Section Keep.
@@ -204,7 +233,7 @@ Section Keep.
   Hypothesis Hext : extendsb o n = true.
   Hypothesis Hwfo : wf_env o = true.
   Hypothesis Hwfn : wf_env n = true.
-  Hypothesis Hopt : opt_init_unset o = true.
+  Hypothesis Hopt : opt_defaults_ok o n = true.
 
   (* v written by the new code, read by the old code into x: x shows the same map-key behaviour as the
      value the new code would read back, and whatever the old code writes for x, the new code reads as
@@ -344,13 +373,31 @@ Section Keep.
   Lemma optional_not_required f : is_optional f = true -> is_required f = false.
   Proof. unfold is_optional, is_required. destruct (f_req f); cbn; congruence. Qed.
 
-  Lemma opt_init so nm f : find_struct o nm = Some so -> In f (s_fields so) -> is_optional f = true ->
-    isset f (init_slot f) = false.
+  Lemma opt_default so nm f : find_struct o nm = Some so -> In f (s_fields so) -> default_ok o n f = true.
   Proof.
-    intros Hs Hf Ho. destruct (find_struct_In _ _ _ Hs) as [Hin _].
-    unfold opt_init_unset in Hopt. rewrite forallb_forall in Hopt. specialize (Hopt so Hin).
-    rewrite forallb_forall in Hopt. specialize (Hopt f Hf). rewrite Ho in Hopt. cbn [negb orb] in Hopt.
-    apply negb_true_iff in Hopt. exact Hopt.
+    intros Hs Hf. destruct (find_struct_In _ _ _ Hs) as [Hin _].
+    unfold opt_defaults_ok in Hopt. rewrite forallb_forall in Hopt. specialize (Hopt so Hin).
+    rewrite forallb_forall in Hopt. apply Hopt. exact Hf.
+  Qed.
+
+  (* an optional field the new code did not send: either the old code does not write it either, or it
+     writes the declared default, which the new code reads back as that default *)
+  Lemma opt_default_cases so nm f : find_struct o nm = Some so -> In f (s_fields so) -> is_optional f = true ->
+    present f (init_slot f) = false \/
+    (present f (init_slot f) = true /\ base_ptr f = false /\
+     exists wd, to_wk o (f_ty f) (init_slot f) = KOk wd /\ from_w n (f_ty f) wd = Ok (init_slot f)).
+  Proof.
+    intros Hs Hf Ho. pose proof (opt_default so nm f Hs Hf) as Hd. unfold default_ok in Hd.
+    unfold present. rewrite Ho in *. cbn [negb orb] in *.
+    destruct (isset f (init_slot f)) eqn:Ei; [|left; reflexivity]. right. cbn [negb orb] in Hd.
+    split; [reflexivity|]. split.
+    - destruct (f_default f) as [l|] eqn:Ed.
+      + unfold base_ptr, has_default. rewrite Ed, Ho. reflexivity.
+      + destruct (base_ptr f) eqn:Eb; [|reflexivity]. exfalso.
+        unfold isset, init_slot, zero_slot in Ei. rewrite Ed, Eb in Ei. discriminate.
+    - destruct (to_wk o (f_ty f) (init_slot f)) as [wd|]; [|discriminate].
+      destruct (from_w n (f_ty f) wd) as [vd|] eqn:Er; [|discriminate]. apply value_eqb_eq in Hd. subst vd.
+      exists wd. split; [reflexivity | exact Er].
   Qed.
 
   Lemma keyrep_eq_base b x : is_base_value b = true -> keyrep x = b -> x = b.
@@ -565,8 +612,11 @@ Section Keep.
           assert (Ep' : p' = (id, init_slot fn)).
           { unfold p', kupd. cbn [fst]. rewrite Hwf_id. reflexivity. }
           rewrite Ep' in How'. unfold kwfield_fn in How'. cbn [fst snd] in How'. rewrite Efo in How'.
-          unfold present in How'. rewrite Hopt_fn, (opt_init so nm fn Eso Hfo_in Hopt_fn) in How'. cbn [negb orb] in How'.
-          injection How' as <-. split; [exact Hnorm | apply optional_not_required; exact Hopt_fn].
+          destruct (opt_default_cases so nm fn Eso Hfo_in Hopt_fn) as [Hpi|(Hpi & Hbp & wd & Hwd & Hrd)]; rewrite Hpi in How'.
+          * injection How' as <-. split; [exact Hnorm | apply optional_not_required; exact Hopt_fn].
+          * rewrite Hbp, Hwd in How'. cbn [kbind] in How'. injection How' as <-. cbn [fst snd].
+            split; [rewrite !ttype_of_spec; reflexivity|]. exists (init_slot fn). split; [exact Hrd|].
+            rewrite Hnorm. unfold wrap_slot. rewrite Hbp. reflexivity.
       - (* a field the old schema does not have: its bytes were kept *)
         assert (Hnone : wire_find id (cat_somes (map emit_o slots_o)) = None).
         { apply (wire_find_emit_absent emit_o Hemit_o). rewrite Hslo_ids. apply find_field_None. exact Efo. }
@@ -654,7 +704,7 @@ Qed.
    that object; whenever this Write does not refuse, the new code reads the bytes as the value it would
    have read from the original bytes: nothing dropped, duplicated or reordered inside a field *)
 Theorem keep_roundtrip o n so sn v w x w' :
-  extendsb o n = true -> wf_env o = true -> wf_env n = true -> opt_init_unset o = true ->
+  extendsb o n = true -> wf_env o = true -> wf_env n = true -> opt_defaults_ok o n = true ->
   find_struct o (s_name sn) = Some so -> find_struct n (s_name sn) = Some sn ->
   wt n sn v = true -> keepable n (TRef (s_name sn)) v = true ->
   to_wire n sn v = Ok w -> read_new_keep o so w = KOk x -> to_wire_keep o so x = KOk w' ->
@@ -683,7 +733,7 @@ Fixpoint chain_dom (n : env) (sn : sschema) (k : nat) (v : value) : Prop :=
   end.
 
 Theorem chain_any_length o n so sn :
-  extendsb o n = true -> wf_env o = true -> wf_env n = true -> opt_init_unset o = true ->
+  extendsb o n = true -> wf_env o = true -> wf_env n = true -> opt_defaults_ok o n = true ->
   find_struct o (s_name sn) = Some so -> find_struct n (s_name sn) = Some sn ->
   forall k v x, chain_dom n sn k v -> chain o n so sn k v = KOk x -> x = iter_norm n sn k v.
 Proof.
@@ -849,7 +899,7 @@ Definition ex_v : value := VStruct [(1, VStruct [(1, VNil); (2, VSome (VStr [x78
    that it carries unknown fields), yet the old code cannot write the object again *)
 Theorem keep_union_refuted :
   exists o n so sn v w x,
-    extendsb o n = true /\ wf_env o = true /\ wf_env n = true /\ opt_init_unset o = true /\
+    extendsb o n = true /\ wf_env o = true /\ wf_env n = true /\ opt_defaults_ok o n = true /\
     find_struct o (s_name sn) = Some so /\ find_struct n (s_name sn) = Some sn /\
     wt n sn v = true /\ keepable n (TRef (s_name sn)) v = true /\
     to_wire n sn v = Ok w /\ read_new_keep o so w = KOk x /\
@@ -882,7 +932,7 @@ Definition ex2_v : value :=
            (4, VMap [(VStr [x6b], ex2_in_v 8 0)]); (9, VList [VInt 3; VInt 4]); (-3, VBin [x00; xff])].
 
 Lemma keep_example_domain :
-  extendsb ex2_old ex2_new = true /\ wf_env ex2_old = true /\ wf_env ex2_new = true /\ opt_init_unset ex2_old = true /\
+  extendsb ex2_old ex2_new = true /\ wf_env ex2_old = true /\ wf_env ex2_new = true /\ opt_defaults_ok ex2_old ex2_new = true /\
   find_struct ex2_old (s_name ex2_sn) = Some ex2_so /\ find_struct ex2_new (s_name ex2_sn) = Some ex2_sn /\
   chain_dom ex2_new ex2_sn 3 ex2_v.
 Proof. repeat split; vm_compute; reflexivity. Qed.
